@@ -1,13 +1,21 @@
 """C04 — complex arithmetic is correctly rounded per component."""
 from props import _civ
 import cplx_iv_ops as CI
+import c04_api
 
 LEVEL = "proof"
 LEAN_MODULES = ["Props.C04"]
 ASSUMPTIONS = ["theorems cover add/sub/mul/mul_mpf/mul_int/square/neg/pos componentwise; division/reciprocal/negative powers are bit-exactly "
                "modelled and their accuracy clause is decided per case in exact arithmetic",
+               "the public routes (operators with mpc/mpf/int/float/complex operand mixes under the context rounding mode; fadd/fsub/fmul with "
+               "prec=/rounding= keywords) are decided componentwise against correct rounding in exact rational arithmetic on a seeded sample (glue not proved)",
                "the final fallback of mpc_pow_int (mpc_exp/mpc_log) is not modelled: both sides answer NotImplementedError on that branch"]
 
 
 def run(ctx):
-    return _civ.run_civ(ctx, "C04", CI.COMPLEX_OPS + ["malformed"], 40000, 1500000)
+    res = _civ.run_civ(ctx, "C04", CI.COMPLEX_OPS + ["malformed"], 40000, 1500000)
+    cov, failing = c04_api.run_api(ctx, 12000 if ctx.quick else 400000)
+    res["coverage"]["api_complex"] = cov
+    res["coverage"]["evaluations"] = res["coverage"].get("evaluations", 0) + cov["cases"]
+    res["failing_inputs"] += failing
+    return res
